@@ -16,6 +16,7 @@ mod mps_model;
 mod props;
 mod qplib_model;
 mod rng;
+mod wire;
 
 use monitor::Monitor;
 use rng::Rng;
